@@ -273,7 +273,14 @@ def run(rep, tier):
             fb = ff6.before.get((b, i)) or frozenset()
             good = False
             seen_tests = []
+            # a test result kept in a bool local counts as the test (selected = test(mask, idx); if (selected) ...)
+            fb2 = set(fb)
             for a, t in fb:
+                if re.match(r"^\w+$", a):
+                    ini_b = reaching_init(f, a, (b, i))
+                    if ini_b is not None:
+                        fb2.add((T(strip(ini_b)), t))
+            for a, t in fb2:
                 mm = re.match(r"^(?:0 == |)(hwloc_bitmap_isset|test)\((.+),(\w+)\)(?: == 0| != 0|)$", a)
                 if not mm:
                     continue
